@@ -2,6 +2,7 @@ package main
 
 import (
 	"go/token"
+	"go/types"
 	"sort"
 	"strings"
 
@@ -239,6 +240,74 @@ func (p *Prog) unitFindCall(anchor *ssa.Function, suffix string) *ssa.Call {
 		}
 	})
 	return out
+}
+
+// curProg is the program under analysis (set by Load); isFn compares a callee with a rule subject resolved by object
+// (rename tolerant), instead of comparing spelled names.
+var curProg *Prog
+
+func isFn(g *ssa.Function, rel, name string) bool {
+	if g == nil || curProg == nil {
+		return false
+	}
+	if curProg.fnCache == nil {
+		curProg.fnCache = map[string]*ssa.Function{}
+	}
+	k := rel + "|" + name
+	f, ok := curProg.fnCache[k]
+	if !ok {
+		f = curProg.Func(rel, name)
+		curProg.fnCache[k] = f
+	}
+	return f != nil && f == g
+}
+
+// ownerAnchor: the function the rules know that fn belongs to — fn itself when it is a known (possibly renamed)
+// declaration, the enclosing declaration for a closure, or the unique known function whose unit contains a helper that
+// was split off from it. Used to name constructs stably (known-finding keys survive helper extraction).
+func (p *Prog) ownerAnchor(fn *ssa.Function) *ssa.Function {
+	if fn == nil {
+		return nil
+	}
+	top := topFn(fn)
+	if !p.isNovelFunc(top) {
+		return top
+	}
+	var owner *ssa.Function
+	n := 0
+	for _, cs := range p.CallersOf(top) {
+		if topFn(cs.Parent()) == top || p.isNovelFunc(topFn(cs.Parent())) {
+			continue // only one level: helpers of helpers keep their own name
+		}
+		k := p.ownerAnchor(cs.Parent())
+		if k != nil && k != owner {
+			owner = k
+			n++
+		}
+	}
+	if n == 1 {
+		return owner
+	}
+	return top
+}
+
+// isField: fv is the struct field the rules know as rel.typ.name (resolved by object, rename tolerant).
+func isField(fv *types.Var, rel, typ, name string) bool {
+	if fv == nil || curProg == nil {
+		return false
+	}
+	return curProg.Field(rel, typ, name) == fv
+}
+
+// curName: the current spelling of a function the rules know as rel.name ("" if it cannot be resolved).
+func curName(rel, name string) string {
+	if curProg == nil {
+		return ""
+	}
+	if f := curProg.Func(rel, name); f != nil {
+		return f.Name()
+	}
+	return ""
 }
 
 // unitReturns: the return instructions of the anchor and of the code split off from it. When a body was moved into a
